@@ -11,6 +11,9 @@
   output, not sampled.
 -/
 import PS.Proofs.Cfg
+import PS.Proofs.Lang
+import PS.Proofs.Programs
+import PS.Proofs.Mass
 namespace PS.G
 open PS
 
@@ -89,6 +92,37 @@ theorem C01_clean (P : Params) (G : CFG) (dead : List CNT) (rankR rankP : AList 
   have := (List.mem_filter.mp h1').2
   simp only [List.all_eq_true] at this
   exact this a ha
+
+/-- **Counting**: for a table accepted by the checker, whenever `programs()` returns a number
+    (not -1) that number is the number of well-typed terms: there is a duplicate-free list of
+    exactly the terms of the language, of that length. (Uses the counting theorems of C04.) -/
+theorem C01_count (P : Params) (G : CFG) (dead : List CNT) (rankR rankP : AList CNT Nat)
+    (h : tableOK P G dead rankR rankP = true) (n : Nat) (hp : programs G = some n) :
+    ∃ L : List Prog, L.Nodup ∧ n = L.length ∧
+      ∀ t, t ∈ L ↔ wt P (effParent P) t 0 none P.request.returns = true := by
+  have hcert := C01_certified P G dead rankR rankP h
+  unfold tableOK at h
+  simp only [Bool.and_eq_true] at h
+  obtain ⟨⟨⟨⟨hstart, hrules⟩, _⟩, _⟩, _⟩ := h
+  unfold okStart at hstart
+  simp only [Bool.and_eq_true, beq_iff_eq, decide_eq_true_eq] at hstart
+  obtain ⟨_, hnd⟩ := hstart
+  -- every row of the table has distinct symbols
+  have hrows : RowsNodup G := by
+    intro nt rs hl
+    have hmem := AList.lookup_some_mem hl
+    unfold okRules at hrules
+    rw [List.all_eq_true] at hrules
+    have := hrules (nt, rs) hmem
+    simp only [Bool.and_eq_true] at this
+    obtain ⟨hsame, _⟩ := this
+    unfold sameRules at hsame
+    simp only [Bool.and_eq_true, decide_eq_true_eq] at hsame
+    exact hsame.2
+  obtain ⟨k, hb, hn⟩ := Programs.programs_eq_count G hnd n hp
+  refine ⟨lang G k G.start, lang_nodup G hrows k G.start, by rw [hn, count_eq_length], ?_⟩
+  intro t
+  rw [mem_lang_of_bounded G hrows k t G.start hb, ← hcert t, C01_contains_gen]
 
 /-! ### non-vacuity and the recorded finding -/
 namespace Example
